@@ -125,9 +125,11 @@ func c07Compare(kind string, base, other map[string]string, only func(string) bo
 // package_info block) are drawn from the same small pool as the names of user types.  A unit never
 // references another unit, so every arrangement must leave each unit's Go unchanged.
 type c07Unit struct {
-	src   string
-	decls []string // Go declarations it owns ("type X", "func f")
-	after int      // index of the unit this one must follow (its only reference), or -1
+	src    string
+	decls  []string // Go declarations it owns ("type X", "func f")
+	after  int      // index of the unit this one must follow (its only reference), or -1
+	deps   []int    // further units it refers to (must follow them; part of its minimal program)
+	before []int    // units it must precede (ordering only: what it means depends on what stands before it)
 }
 
 var c07Pool = []string{"T", "U", "V", "K", "S", "Dict", "Buffer", "Item"}
@@ -148,6 +150,20 @@ func c07Units(g *ggen, i int) []c07Unit {
 			src:   fmt.Sprintf("let norm%s (v:%s) =\n  v.X%s + v.Y%s\n\n", id, n, id, id),
 			decls: []string{"func norm" + id}, after: len(us) - 1,
 		})
+	}
+	if g.r.Intn(2) == 0 {
+		// two record types with ONE field-name set and unqualified literals of that shape: a literal
+		// means the alphabetically first such type declared BEFORE it, so each literal keeps its place
+		// relative to the two types while everything else moves around it
+		id := fmt.Sprintf("%d", i)
+		t1 := len(us)
+		us = append(us, c07Unit{src: fmt.Sprintf("type Zed%s = {P%s: int; Q%s: int}\n\n", id, id, id), decls: []string{"type Zed" + id}, after: -1})
+		f1 := len(us)
+		us = append(us, c07Unit{src: fmt.Sprintf("let mkFirst%s () =\n  {P%s=1; Q%s=2}\n\n", id, id, id), decls: []string{"func mkFirst" + id}, after: t1})
+		t2 := len(us)
+		us = append(us, c07Unit{src: fmt.Sprintf("type Abe%s = {P%s: int; Q%s: int}\n\n", id, id, id), decls: []string{"type Abe" + id}, after: -1})
+		us[f1].before = []int{t2}
+		us = append(us, c07Unit{src: fmt.Sprintf("let mkSecond%s () =\n  {P%s=3; Q%s=4}\n\n", id, id, id), decls: []string{"func mkSecond" + id}, after: t1, deps: []int{t2}})
 	}
 	pick := func() string { return c07Pool[g.r.Intn(len(c07Pool))] }
 	nOther := 1 + g.r.Intn(3)
@@ -205,6 +221,9 @@ func c07Scoping(g *ggen, i int) {
 		if us[k].after >= 0 {
 			minimal = []int{us[k].after, k}
 		}
+		if len(us[k].deps) > 0 {
+			minimal = append(append([]int{us[k].after}, us[k].deps...), k)
+		}
 		o, e := vTranspileFilesOpt([]string{render(minimal)}, false)
 		if e != "" {
 			vViolation(map[string]any{"kind": "fc rejected a valid program", "error": e, "program": render(minimal)})
@@ -227,9 +246,29 @@ func c07Scoping(g *ggen, i int) {
 				pos[k] = p
 			}
 			for k, u := range us {
-				if u.after >= 0 && pos[u.after] > pos[k] {
-					order[pos[u.after]], order[pos[k]] = order[pos[k]], order[pos[u.after]]
-					changed = true
+				var must []int // units that have to stand before k
+				if u.after >= 0 {
+					must = append(must, u.after)
+				}
+				must = append(must, u.deps...)
+				for _, d := range must {
+					if pos[d] > pos[k] {
+						order[pos[d]], order[pos[k]] = order[pos[k]], order[pos[d]]
+						changed = true
+						break
+					}
+				}
+				if changed {
+					break
+				}
+				for _, b := range u.before {
+					if pos[b] < pos[k] {
+						order[pos[b]], order[pos[k]] = order[pos[k]], order[pos[b]]
+						changed = true
+						break
+					}
+				}
+				if changed {
 					break
 				}
 			}
@@ -263,7 +302,7 @@ func c07Scoping(g *ggen, i int) {
 		sort.Strings(keys)
 		for _, d := range keys {
 			if got[d] != alone[d] {
-				vViolation(map[string]any{"kind": "a definition's Go depends on unrelated definitions around it (bound names of other declarations leak)", "declaration": d,
+				vViolation(map[string]any{"kind": "a definition's Go depends on unrelated definitions around it (state left by other declarations leaks)", "declaration": d,
 					"alone_go": alone[d], "arranged_go": got[d], "arrangement": desc, "files": srcs})
 				break
 			}
